@@ -13,6 +13,7 @@ from typing import TYPE_CHECKING
 import ray
 from numpy import around, seterr
 from sqlalchemy.orm import Query
+from sqlalchemy.orm.attributes import set_committed_value
 
 # Local Imports
 from ..agents.estimate_agent import EstimateAgent
@@ -287,15 +288,24 @@ class Scenario:
                 Query(Epoch).filter(Epoch.julian_date.in_(row_epochs)),
             )
         }
-        output_data = [
-            Epoch(
-                julian_date=julian_date,
-                timestampISO=julianDateToDatetime(JulianDate(julian_date)).isoformat(
-                    timespec="microseconds",
-                ),
+        new_epochs = []
+        for julian_date in sorted(row_epochs - known_epochs):
+            timestamp = julianDateToDatetime(JulianDate(julian_date)).isoformat(
+                timespec="microseconds",
             )
-            for julian_date in sorted(row_epochs - known_epochs)
-        ] + output_data
+            # [NOTE]: imported data can carry a Julian date that differs in the last bit from the one
+            #   the clock recorded for the same instant, these rows refer to the recorded epoch.
+            if recorded := self.database.getData(
+                Query(Epoch).filter(Epoch.timestampISO == timestamp),
+                multi=False,
+            ):
+                for row in output_data:
+                    if hasattr(row, "julian_date") and float(row.julian_date) == julian_date:
+                        # [NOTE]: not a change of the row, so rows read from the importer stay clean
+                        set_committed_value(row, "julian_date", recorded.julian_date)
+            else:
+                new_epochs.append(Epoch(julian_date=julian_date, timestampISO=timestamp))
+        output_data = new_epochs + output_data
 
         # Commit data to output DB
         self.database.bulkSave(output_data)
